@@ -8,8 +8,9 @@
    KIND    ::= done | stepfatal | stepfatal_norun | svfatal | notice | signal | unknown | baddone
              | eof | readerr | garbage | partial
    MODE    ::= (choices N1 N2 ...) | (enum MAXCOUNT)
-   result  ::= (scheds (sched (steps (st ROLE ACTION ARG (KIND ...)) ...) FINAL (flightok 0|1)) ...)
-               flightok: ATP.Client.flight_ok (the side condition of the progress theorem) held in every state of the schedule
+   result  ::= (scheds (sched (steps (st ROLE ACTION ARG (KIND ...)) ...) FINAL (flightok 0|1) (lostbuf IDX|-1)) ...)
+               flightok: ATP.Client.flight_ok (a theorem for good sessions, C06_flight_ok; re-evaluated here) held in every state
+               lostbuf:  index of the first step at which a read loop ended with a non-empty read-ahead buffer (-1: never)
    FINAL   ::= (final (traces (ROLE KIND ...) ...) (results ("RUN" ok|err|none N) ...) (close ok|err|panic|none)
                       (emitted N ...) (wire ITEM ...) (left (ROLE parked KIND)|(ROLE blocked) ...)) *)
 From Verif Require Import Base.Prelude Base.Str ATP.Msg ATP.Client Interp.Sexp.
@@ -278,7 +279,26 @@ Definition s_final (s : ast) (traces : list (string * list sexp)) (wire : list s
 
 (* the bookkeeping carried along a schedule *)
 Record acc := mkAcc { a_steps : list sexp; a_traces : list (string * list sexp); a_wire : list sexp; a_waiter : bool;
-                      a_ok : bool }.   (* flight_ok held in every state visited so far *)
+                      a_ok : bool;     (* flight_ok held in every state visited so far *)
+                      a_lost : option nat }.   (* index of the first step at which a read loop ended with a non-empty read-ahead buffer *)
+
+(* The read loop ends (exit check, fatal exit, server-fatal message) while its decoder still holds read-ahead.  The model
+   drops whole ITEMS; the real decoder, on a fragmenting transport, holds a BYTE prefix of the next item (or nothing), so
+   from here on the two may differ (the next loop meets a corrupt stream / the stale item).  Never the case for a healthy
+   peer (nothing is in flight when no entry is pending); the flag delimits exactly the schedules for which the replay
+   of a fragmenting session checks the property's predicate instead of equality with the model. *)
+Definition loses_readahead (s : ast) (l : label) : bool :=
+  match l, cur s with
+  | LLoop _, Some lo =>
+      match l_buf lo with
+      | [] => false
+      | _ :: _ => match step s l with
+                  | Some s' => loop_live (cur s) && negb (loop_live (cur s'))
+                  | None => false
+                  end
+      end
+  | _, _ => false
+  end.
 
 Definition acc_step (s : ast) (l : label) (a : acc) : acc :=
   let spawned_waiter := match l, closer s with LCloser, KSend => negb (is_some (cwrite s (@ClientDone pl))) | _, _ => false end in
@@ -290,11 +310,16 @@ Definition acc_step (s : ast) (l : label) (a : acc) : acc :=
          end)
         (a_wire a ++ wire_item s l)
         ((a_waiter a || spawned_waiter) && negb waiter_gone)
-        (a_ok a && flight_ok s).
+        (a_ok a && flight_ok s)
+        (match a_lost a with
+         | Some i => Some i
+         | None => if loses_readahead s l then Some (List.length (a_steps a)) else None
+         end).
 
 Definition s_sched (s : ast) (a : acc) (complete : bool) : sexp :=
   Ls [At (if complete then "sched" else "sched-incomplete"); Ls (At "steps" :: a_steps a); s_final s (a_traces a) (a_wire a) (a_waiter a);
-      Ls [At "flightok"; sb (a_ok a && flight_ok s)]].
+      Ls [At "flightok"; sb (a_ok a && flight_ok s)];
+      Ls [At "lostbuf"; At (match a_lost a with Some i => nat_str i | None => "-1" end)]].
 
 Fixpoint sample (fuel : nat) (s : ast) (choices : list Z) (a : acc) : sexp :=
   match fuel with
@@ -332,7 +357,7 @@ Fixpoint enum (fuel : nat) (s : ast) (a : acc) (budget : nat) (out : list sexp) 
       end
   end.
 
-Definition acc0 := mkAcc [] [] [] false true.
+Definition acc0 := mkAcc [] [] [] false true None.
 
 Definition run_atpclient_case (x : sexp) : sexp :=
   match x with
